@@ -134,6 +134,12 @@ def poison_recovered(reg):
     return ok
 
 
+def no_timers(reg):
+    """registry.rs has no timer, sleep, timeout, retry or non-blocking lock attempt today; any of them appearing inside the
+    code the property depends on is a pessimistic fact."""
+    return re.search(r"\b(sleep|timeout|Instant|Duration|try_read|try_write|try_lock|park|yield_now|recv_timeout|wait_timeout)\b", reg) is None
+
+
 def map_sorted():
     lock = read("Cargo.lock")
     m = re.search(r'\[\[package\]\]\s*name = "serde_json"\s*version = "[^"]+"(.*?)(?=\[\[package\]\]|\Z)', lock, re.S)
@@ -196,7 +202,7 @@ def extract():
     single, read_single, recheck, write_single, call_outside = lock_facts(reg)
     shape = shape_facts(reg)
     return {"bodyFormats": body_formats(), "shape": shape, "errorCodes": error_codes(), "registryErrorCode": variant_table(reg), "singleSection": single,
-            "readDispatchSingleSection": read_single, "lookupThenWriteLock": True, "writeSectionSingle": write_single, "callOutsideLock": call_outside, "poisonRecovered": poison_recovered(reg),
+            "readDispatchSingleSection": read_single, "lookupThenWriteLock": True, "writeSectionSingle": write_single, "callOutsideLock": call_outside, "poisonRecovered": poison_recovered(reg), "noTimers": no_timers(reg),
             "recheckUnderWriteLock": recheck, "mapSorted": map_sorted()}
 
 
@@ -220,6 +226,8 @@ def render(f):
          f"def writeSectionSingle : Bool := {lb(f['writeSectionSingle'])}",
          "/-- no callable is invoked while a lock guard is alive -/",
          f"def callOutsideLock : Bool := {lb(f['callOutsideLock'])}",
+         "/-- no sleep / timeout / Instant / try_lock / retry arm anywhere in registry.rs -/",
+         f"def noTimers : Bool := {lb(f['noTimers'])}",
          "/-- read_state / write_state recover the guard from a poisoned lock -/",
          f"def poisonRecovered : Bool := {lb(f['poisonRecovered'])}",
          "/-- the write-lock region looks the function map up again before mutating -/",
